@@ -1567,4 +1567,200 @@ theorem reports_renameLoop (k : Nat) (cfg : Cfg) : ∀ (rs : List Ren) (perf : L
     exact reports_tryCatch (reports_logM k cfg) (ih _)
       (fun e s b s' => bind_ne_ok _ _ _ _ _ (fun _ s1 => bind_throw_ne_ok _ _ _ _ _))
 
+-- no panic ---------------------------------------------------------------------------------------------------------------
+
+theorem runG_true_ne_panic (orig : Bytes) : ∀ (es : List Edits.Edit) (m : Bytes), Edits.runG true orig m es ≠ .error .panic := by
+  intro es
+  induction es with
+  | nil => intro m h; cases h
+  | cons e es ih =>
+    intro m h
+    unfold Edits.runG at h
+    cases hs : Edits.stepG true orig m e with
+    | ok m' => rw [hs] at h; exact ih m' h
+    | error x =>
+      rw [hs] at h
+      cases h
+      unfold Edits.stepG at hs
+      cases h1 : Edits.sliceStr orig e.start e.stop with
+      | none => simp [h1] at hs
+      | some actual =>
+        simp only [h1] at hs
+        by_cases h2 : actual ≠ e.before
+        · simp [h2] at hs
+        · simp only [h2, if_false] at hs
+          cases h3 : Edits.replaceRange m e.start e.stop e.after with
+          | none => simp [h3] at hs
+          | some m' => simp [h3] at hs
+
+theorem applyEdits_ne_panic (c : Bytes) (es : List Edits.Edit) : Edits.applyEdits c es ≠ .error .panic :=
+  runG_true_ne_panic c es.reverse c
+
+/-- `x` never ends in a panic, whatever the state (every injection spec included) -/
+def NoPanic {α : Type} (x : M α) : Prop := ∀ s s', x s ≠ .err .panic s'
+
+theorem np_pure {α : Type} (a : α) : NoPanic (pure a : M α) := by
+  intro s s' h; cases h
+
+theorem np_bind {α β : Type} {x : M α} {f : α → M β} (hx : NoPanic x) (hf : ∀ a, NoPanic (f a)) : NoPanic (x >>= f) := by
+  intro s s' h
+  change M.bind x f s = _ at h
+  unfold M.bind at h
+  cases hxs : x s with
+  | ok a s1 => rw [hxs] at h; exact hf a s1 s' h
+  | err e s1 => rw [hxs] at h; cases h; exact hx s s' hxs
+  | crash s1 => rw [hxs] at h; cases h
+
+theorem np_throw {α : Type} (f : Fail) (hf : f ≠ .panic) : NoPanic (Exec.throw f : M α) := by
+  intro s s' h; cases h; exact hf rfl
+
+theorem np_getTree : NoPanic getTree := by
+  intro s s' h; cases h
+
+theorem np_doOp (op : Op) : NoPanic (doOp op) := by
+  intro s s' h
+  unfold doOp stepOp at h
+  cases hi : s.inj <;> rw [hi] at h <;> simp only at h <;>
+    (try split at h) <;> (try split at h) <;> (try split at h) <;> first | cases h | skip
+
+theorem np_tryCatch {x : M Unit} (hx : NoPanic x) : NoPanic (Exec.tryCatch x) := by
+  intro s s' h
+  unfold Exec.tryCatch at h
+  cases hxs : x s with
+  | ok a s1 => rw [hxs] at h; cases h
+  | crash s1 => rw [hxs] at h; cases h
+  | err f s1 =>
+    rw [hxs] at h
+    cases f with
+    | panic => exact hx s s1 hxs
+    | _ => cases h
+
+theorem np_logM (cfg : Cfg) : NoPanic (logM cfg) := by
+  unfold logM
+  by_cases hl : cfg.log.isSome = true
+  · simp only [hl, if_true]; exact np_doOp _
+  · simp only [hl, Bool.false_eq_true, if_false]; exact np_pure ()
+
+theorem np_writeAll (p : Path) (c : Bytes) : NoPanic (writeAll p c) := by
+  unfold writeAll
+  by_cases hc : c.isEmpty = true
+  · simp only [hc, if_true]; exact np_pure ()
+  · simp only [hc, Bool.false_eq_true, if_false]; exact np_doOp _
+
+theorem np_ignoreErr {x : M Unit} (hx : NoPanic x) : NoPanic (ignoreErr x) := by
+  unfold ignoreErr
+  exact np_bind (np_tryCatch hx) (fun _ => np_pure ())
+
+theorem np_replaceFile (f : Path) (c' : Bytes) (m : Nat) : NoPanic (replaceFile f c' m) := by
+  unfold replaceFile
+  exact np_bind (np_doOp _) (fun _ => np_bind (np_writeAll _ _) (fun _ => np_bind (np_doOp _) (fun _ => np_doOp _)))
+
+theorem np_tryCatch_bind {β : Type} {x : M Unit} {k : Option Fail → M β} (hx : NoPanic x) (hnone : NoPanic (k none))
+    (hsome : ∀ e, e ≠ .panic → NoPanic (k (some e))) : NoPanic (Exec.tryCatch x >>= k) := by
+  intro s s' h
+  change M.bind (Exec.tryCatch x) k s = _ at h
+  unfold M.bind Exec.tryCatch at h
+  cases hxs : x s with
+  | ok a s1 => rw [hxs] at h; exact hnone s1 s' h
+  | crash s1 => rw [hxs] at h; cases h
+  | err f s1 =>
+    rw [hxs] at h
+    cases f with
+    | panic => exact hx s s1 hxs
+    | io e => exact hsome (.io e) (by simp) s1 s' h
+    | mismatch => exact hsome .mismatch (by simp) s1 s' h
+    | unreadable => exact hsome .unreadable (by simp) s1 s' h
+    | destExists => exact hsome .destExists (by simp) s1 s' h
+    | rollbackErr => exact hsome .rollbackErr (by simp) s1 s' h
+    | patchFailed => exact hsome .patchFailed (by simp) s1 s' h
+
+theorem np_tryOp (op : Op) : NoPanic (tryOp op) := by
+  intro s s' h
+  unfold tryOp at h
+  cases hxs : doOp op s with
+  | ok a s1 => rw [hxs] at h; cases h
+  | crash s1 => rw [hxs] at h; cases h
+  | err f s1 =>
+    rw [hxs] at h
+    cases f with
+    | panic => exact np_doOp op s s1 hxs
+    | _ => cases h
+
+theorem np_replaceFileF (clean : Bool) (f : Path) (c' : Bytes) (m : Nat) : NoPanic (replaceFileF clean f c' m) := by
+  unfold replaceFileF
+  cases clean with
+  | false => exact np_replaceFile f c' m
+  | true =>
+    simp only [if_true]
+    refine np_tryCatch_bind (np_replaceFile f c' m) (np_pure ()) (fun e he => ?_)
+    exact np_bind (np_ignoreErr (np_doOp _)) (fun _ => np_throw e he)
+
+theorem np_editOne (clean : Bool) (cfg : Cfg) (hs : List Hunk) (f : Path) (c : Bytes) (m : Nat) :
+    NoPanic (editOneF clean cfg hs f c m) := by
+  unfold editOneF
+  refine np_bind (np_logM cfg) (fun _ => ?_)
+  cases h : Edits.applyEdits c (editsFor hs f) with
+  | error e =>
+    cases e with
+    | panic => exact absurd h (applyEdits_ne_panic _ _)
+    | mismatch => exact np_throw _ (by simp)
+  | ok c' => exact np_bind (np_replaceFileF clean f c' m) (fun _ => np_logM cfg)
+
+theorem np_rollbackLoop (cfg : Cfg) : ∀ (l : List (Path × Path)) (b : Bool), NoPanic (rollbackLoop cfg l b) := by
+  intro l
+  induction l with
+  | nil => intro b; unfold rollbackLoop; exact np_pure b
+  | cons x l ih =>
+    intro b
+    obtain ⟨f, to⟩ := x
+    unfold rollbackLoop
+    exact np_bind (np_logM cfg) (fun _ => np_bind (np_tryOp _) (fun _ => ih _))
+
+theorem np_rollbackM (cfg : Cfg) (perf : List (Path × Path)) : NoPanic (rollbackM cfg perf) := by
+  unfold rollbackM
+  refine np_bind (np_logM cfg) (fun _ => np_bind (np_rollbackLoop cfg _ _) (fun b => ?_))
+  cases b with
+  | false => exact np_logM cfg
+  | true => exact np_throw _ (by simp)
+
+theorem np_contentLoop (clean : Bool) (cfg : Cfg) (hs : List Hunk) : ∀ fs : List Path, NoPanic (contentLoopF clean cfg hs fs) := by
+  intro fs
+  induction fs with
+  | nil => unfold contentLoopF; exact np_pure ()
+  | cons f fs ih =>
+    unfold contentLoopF
+    refine np_bind np_getTree (fun a => ?_)
+    cases lookup a f with
+    | none => exact np_throw _ (by simp)
+    | some n =>
+      cases n with
+      | dir m => exact np_throw _ (by simp)
+      | link x => exact np_throw _ (by simp)
+      | file c m =>
+        by_cases hv : (!Utf8.valid c) = true
+        · simp only [hv, if_true]; exact np_throw _ (by simp)
+        · simp only [hv, Bool.false_eq_true, if_false]
+          refine np_tryCatch_bind (np_editOne clean cfg hs f c m) ih (fun e he => ?_)
+          exact np_bind (np_logM cfg) (fun _ => np_bind (np_rollbackM cfg []) (fun _ => np_throw e he))
+
+theorem np_repeat_log (cfg : Cfg) : ∀ n, NoPanic (Exec.repeatM n (logM cfg)) := by
+  intro n
+  induction n with
+  | zero => unfold Exec.repeatM; exact np_pure ()
+  | succ n ih => unfold Exec.repeatM; exact np_bind (np_logM cfg) (fun _ => ih)
+
+theorem np_renameLoop (cfg : Cfg) : ∀ (rs : List Ren) (perf : List (Path × Path)), NoPanic (renameLoop cfg perf rs) := by
+  intro rs
+  induction rs with
+  | nil => intro perf; unfold renameLoop; exact np_pure perf
+  | cons r rs ih =>
+    intro perf
+    unfold renameLoop
+    refine np_bind (np_repeat_log cfg _) (fun _ => ?_)
+    dsimp only
+    refine np_tryCatch_bind (np_bind (np_logM cfg) (fun _ => np_doOp _)) ?_ (fun e he => ?_)
+    · refine np_tryCatch_bind (np_logM cfg) (ih _) (fun e he => ?_)
+      exact np_bind (np_logM cfg) (fun _ => np_bind (np_rollbackM cfg _) (fun _ => np_throw e he))
+    · exact np_bind (np_logM cfg) (fun _ => np_bind (np_rollbackM cfg _) (fun _ => np_throw e he))
+
 end ExecL
